@@ -21,7 +21,7 @@ from inline_snapshot import snapshot
 __all__ = [
     "Color", "Perm", "Outer", "DC", "DCD", "DCN", "AT", "PM", "NT", "NTD", "NoCode", "NoCodeBox", "BadCopy", "RaisesEq",
     "Unorderable", "REC", "rec", "ok", "mark", "check_eq", "check_le", "check_ge", "check_in", "G", "set_g",
-    "Is", "outsource", "snapshot", "defaultdict", "ident", "Plain", "EvilEq", "snapshot_alias", "NP", "NPBool", "check_example", "EXAMPLE_SRC",
+    "Is", "outsource", "snapshot", "defaultdict", "ident", "Plain", "EvilEq", "snapshot_alias", "NP", "NPBool", "check_example", "EXAMPLE_SRC", "KW",
 ]
 
 defaultdict = collections.defaultdict
@@ -63,6 +63,15 @@ class DCD:
     x: typing.Any = 0
     y: typing.Any = "y"
     h: typing.Any = dataclasses.field(default=7, repr=False, compare=False)
+
+
+@dataclasses.dataclass(kw_only=True)
+class KW:
+    """keyword-only fields: a required field may follow optional ones"""
+
+    r: typing.Any = 3
+    t: typing.Any = dataclasses.field(default_factory=list)
+    n: typing.Any
 
 
 @dataclasses.dataclass(frozen=True)
